@@ -161,7 +161,7 @@ ParamRelations(s) ==
       IN m.m = "SRQ" =>
            /\ kind \in {"SAMEIN0", "SAMEIN1", "SAMEIN3", "SPLIT"} =>
                 \A j \in acts : \A jo \in 1..Len(o.outs) : R[s].par[o.outs[jo]+1] = R[s].par[o.ins[j]+1]
-           /\ kind = "CONCAT" =>
+           /\ kind \in {"CONCAT", "CONCAT3"} =>
                 \A j \in acts : R[s].par[o.ins[j]+1] = R[s].par[o.outs[1]+1]
 
 \* ------------------------------------------------------------------ C15 (bytes agree with annotation)
